@@ -416,12 +416,19 @@ def shard(args) -> Acc:
 # -- run(*actors) ------------------------------------------------------------------
 
 
-def run_group_scenario(ch: Chooser, scripts_a, scripts_b):
+def run_group_scenario(ch: Chooser, scripts_a, scripts_b, prestart=""):
+    """``prestart``: which of the two actors is already running when it is handed to run()."""
     obs = Observation()
     log = []
     with virtual_loop() as loop:
         a = make_probe(scripts_a, log, "none", 0)
         b = make_probe(scripts_b, log, "none", 0)
+        if "a" in prestart:
+            a.start()
+        if "b" in prestart:
+            b.start()
+        if prestart:
+            loop.settle()
         t = loop.create_task(run_actors(a, b))
         returned_at = [None]
         t.add_done_callback(lambda _t: returned_at.__setitem__(0, loop.time()))
@@ -467,10 +474,11 @@ GROUP_SCRIPTS = [[(1, "ret", "propagate")], [(0, "ret", "propagate")], [(1, "exc
 
 def group_shard(_):
     acc = Acc()
-    for sa, sb_ in itertools.product(GROUP_SCRIPTS, GROUP_SCRIPTS):
-        sc = lambda ch, sa=sa, sb_=sb_: run_group_scenario(ch, sa, sb_)  # noqa: E731
-        a = explore(sc, 0, lambda choices, sa=sa, sb_=sb_: {"driver": "run-group", "a": [list(x) for x in sa],
-                                                            "b": [list(x) for x in sb_], "choices": list(choices)}, workers=1)
+    for sa, sb_, pre in itertools.product(GROUP_SCRIPTS, GROUP_SCRIPTS, ("", "a", "b", "ab")):
+        sc = lambda ch, sa=sa, sb_=sb_, pre=pre: run_group_scenario(ch, sa, sb_, pre)  # noqa: E731
+        a = explore(sc, 0, lambda choices, sa=sa, sb_=sb_, pre=pre: {"driver": "run-group", "a": [list(x) for x in sa],
+                                                                     "b": [list(x) for x in sb_], "prestart": pre,
+                                                                     "choices": list(choices)}, workers=1)
         acc.merge(a)
     return acc
 
@@ -513,7 +521,8 @@ def run(tier: str, seed: int, workers: int):
 
 def replay(case: dict):
     if case.get("driver") == "run-group":
-        obs = replay_choices(lambda ch: run_group_scenario(ch, [tuple(x) for x in case["a"]], [tuple(x) for x in case["b"]]),
+        obs = replay_choices(lambda ch: run_group_scenario(ch, [tuple(x) for x in case["a"]], [tuple(x) for x in case["b"]],
+                                                           case.get("prestart", "")),
                              case["choices"], case.get("labels"))
         return obs.violations
     sc = make_scenario([tuple(x) for x in case["scripts"]], case["restart_limit"], case["extra"], case["max_controls"])
